@@ -1,11 +1,15 @@
 import RV.Props.RolloutThms
 import RV.Oracle.RolloutSM
+import RV.Lemmas.ResetOnExit
 /-!
 # "Release the workload" is done only when the BatchRelease is gone (C03 / C05 / C10)
 
 Component-level theorems (every context): the clean-up task `ReleaseWorkloadControl` of `doFinalising` and stage 2 of
 `doProgressingReset` leave their cursor position only in a state without BatchRelease.  The whole-reconcile form is the
-oracle `releaseWaitsGone`, evaluated on every real reconcile.
+oracle `releaseWaitsGone`, evaluated on every real reconcile.  Since the fix "cursor reset" a whole reconcile can also leave the
+position *backwards*: a Progressing rollout that is deleted / disabled restarts its clean-up from an empty cursor
+(`release_waits_gone_restart`); the sequence that follows releases the workload again, as its last task
+(`restart_releases_again`).
 -/
 namespace RV.Props.Release
 open RV.Arith RV.Traffic RV.RolloutSM RV.Oracle.RolloutSM RV.Props.Rollout
@@ -75,5 +79,27 @@ theorem prStage2_release_gone (c c' : Ctx) (d e : Bool) (h : prStage2 c = some (
       obtain ⟨_, _, _, _, _, hbr, _⟩ := callTM_sub _ _ _ _ _ _ hcall
       dsimp only at hbr
       split at h <;> (simp only [Option.some.injEq, Prod.mk.injEq] at h; obtain ⟨hc, _, _⟩ := h; subst hc; rw [hbr]; exact hgone)
+
+/-- **restart on deletion / disabling** — for every world and every result of the body of a reconcile in which a Progressing
+    rollout turns Terminating / Disabling: after the cursor reset the oracle `releaseWaitsGone` holds — the cursor is empty, it has
+    not moved past `ReleaseWorkloadControl` -/
+theorem release_waits_gone_restart (w : World) (r0 : StepResult) (hx : exitsProgressing w r0 = true) :
+    releaseWaitsGone w (resetOnExit w r0) = true := by
+  have hx' : exitsProgressing w (resetOnExit w r0) = true := by
+    unfold exitsProgressing at hx ⊢; rw [resetOnExit_phase]; exact hx
+  unfold releaseWaitsGone
+  rw [resetOnExit_sub, hx']
+  cases w.ro.sub with
+  | none => rfl
+  | some s =>
+    cases r0.w.ro.sub with
+    | none => rfl
+    | some s' => simp [hx]
+
+/-- … and the clean-up that starts over (exit reason "other": deletion, disabling) contains `ReleaseWorkloadControl`, as its last
+    task, in both styles: the workload is released again, and that task waits for the BatchRelease to be gone
+    (`doFinalising_release_gone`) -/
+theorem restart_releases_again (style : Style) : (taskList style .other).getLast? = some .releaseWorkloadControl := by
+  cases style <;> rfl
 
 end RV.Props.Release
